@@ -60,7 +60,7 @@ const char *kKindName[] = {"Sequence", "Parallel", "IfElse", "IfThen", "Switch",
                            "Succ", "Fail", "Function", "Dummy", "Sleep"};
 enum What { W_START, W_PAUSE, W_RESUME, W_STOP, W_RESET, NWHAT };
 const char *kWhatName[] = {"start", "pause", "resume", "stop", "reset"};
-enum EvClass { EC_LEAF_FIN, EC_NODE_FIN, EC_LEAF_START, EC_ROOT_BLOCK, EC_LEAF_BLOCK, NEVCLASS };
+enum EvClass { EC_LEAF_FIN, EC_NODE_FIN, EC_LEAF_START, EC_ROOT_BLOCK, EC_LEAF_BLOCK, EC_ROOT_FIN_CB, NEVCLASS };   // EC_ROOT_FIN_CB: applied synchronously inside the root's finish callback
 
 const int kMaxNodes = 20, kMaxDepth = 4, kScriptTicks = 40, kMaxDrain = 150, kQuietTicks = 9;
 const int64_t kLongTimeout = 100000, kSleepBase = 600, kBigAdvance = 10000000;
@@ -104,7 +104,7 @@ struct CtlCb { int n, what; };
 struct Script {
   std::vector<Ctl> ctl; std::vector<CtlEv> ev; std::vector<CtlCb> cb; std::vector<std::pair<int, int64_t>> adv;
   std::vector<Ctl> pre; std::vector<std::array<int, 3>> pp;
-  int autores = 0; bool pre_stop = false;
+  int autores = 0; bool pre_stop = false; int destroyAt = 0;   // destroyAt: delete the whole tree after that pass of S (0 = never)
 };
 
 Tree parseTree(const Scenario &s, bool noSleep, bool noTimeout) {
@@ -164,7 +164,7 @@ Script parseScript(const Scenario &s) {
   Script sc;
   for (auto &op : s.ops) {
     switch (op.code) {
-      case CFG: sc.autores = (int)op.in(0, 0, 4); sc.pre_stop = op.in(1, 0, 1) != 0; break;
+      case CFG: sc.autores = (int)op.in(0, 0, 4); sc.pre_stop = op.in(1, 0, 1) != 0; sc.destroyAt = (int)op.in(2, 0, 30); break;
       case CTL: if (sc.ctl.size() < 24) sc.ctl.push_back({(int)op.in(0, 0, kScriptTicks - 1), (int)op.in(1, 0, NWHAT - 1), (int)op.in(2, 0, 1)}); break;
       case CTLEV: if (sc.ev.size() < 12) sc.ev.push_back({(int)op.in(0, 0, NEVCLASS - 1), argIn(op, 1, 1, 12), (int)op.in(2, 0, NWHAT - 1), (int)op.in(3, 0, 3)}); break;
       case CTLCB: if (sc.cb.size() < 8) sc.cb.push_back({argIn(op, 0, 1, 12), (int)op.in(1, 0, NWHAT - 1)}); break;
@@ -312,7 +312,7 @@ struct NodeRt {
   std::vector<char> toStart; int toStartLeft = 0;       // Parallel: children not yet started in this run
   std::vector<signed char> fin; int nfin = 0; bool trig = false;   // Parallel
   int idx = 0, remain = 0;
-  bool tmoPending = false;
+  bool tmoPending = false, byTimeout = false;
   // leaves
   int runs = 0, phase = 0, cd = 0, emitRes = -1;
 };
@@ -327,12 +327,12 @@ struct Run {
   bool inRootStart = false, scriptActive = false;
   const std::vector<Ctl> *prog = nullptr; int progBase = 0;
   std::vector<std::pair<int, int>> due;   // (ticks left, what)
-  int cnt[NEVCLASS] = {0, 0, 0, 0, 0};
+  int cnt[NEVCLASS] = {0, 0, 0, 0, 0, 0};
   int pendingFinishCb = 0, pendingBlockCb = 0;
   std::vector<RootRun> runs;
   std::vector<std::array<int, 2>> ppOpen;   // (resume tick, -) pause pairs whose pause took effect
   // statistics
-  bool frozen = false;   // after the final stop: late control calls are ignored
+  bool frozen = false, destroyed = false;   // after the final stop: late control calls are ignored
   bool between = false, pauseBetween = false, anyTimeout = false, blockSeen = false, pausedFinishStored = false,
        resetUnderway = false, sleepAnomaly = false, nonquiescent = false, staleProbe = false;
   int nCtlApplied = 0;
@@ -436,6 +436,7 @@ struct Run {
         } else if (x.toStartLeft > 0) fail(nn(n) + " finished before having started all its children");
         else if (x.pend != PD_FINISH) fail(nn(n) + " finished(" + (r ? "succ" : "fail") + ") although its documented flow " + describePend(n));
         else if (x.pendRes != r) fail(nn(n) + " finished with " + (r ? "success" : "failure") + ", documented result is " + (x.pendRes ? "success" : "failure"));
+        x.byTimeout = x.tmoPending;
         x.st = ST_FIN; x.res = r; x.ended = true; x.pend = PD_NONE; x.tmoPending = false; x.finTick = tick;
         if (d.parent >= 0) { childFinished(d.parent, n, r); bump(leaf ? EC_LEAF_FIN : EC_NODE_FIN); }
         else { pendingFinishCb = 1; if (!runs.empty()) runs.back().result = r; if (leaf) bump(EC_LEAF_FIN); }
@@ -527,10 +528,10 @@ struct Run {
     if (!(P.pend == PD_WAIT && P.pendChild == c)) { fail(nn(c) + " finished, but the documented flow of its parent " + describePend(p)); return; }
     int ci = T.childIndex(p, c);
     switch (d.kind) {
-      case K_SEQ:
-        if ((m3 == 2 && r) || (m3 == 1 && !r)) setFinish(P, r);
-        else if (ci + 1 < (int)d.ch.size()) setStart(P, d.ch[ci + 1]);
-        else setFinish(P, r);
+      case K_SEQ:   // idx mirrors the documented meaning of index(): the child that ended the sequence, or the number of children
+        if ((m3 == 2 && r) || (m3 == 1 && !r)) { P.idx = ci; setFinish(P, r); }
+        else if (ci + 1 < (int)d.ch.size()) { P.idx = ci + 1; setStart(P, d.ch[ci + 1]); }
+        else { P.idx = ci + 1; setFinish(P, r); }
         break;
       case K_IFELSE:
         if (ci == 0) {
@@ -582,6 +583,8 @@ struct Run {
     else if (!pendingFinishCb) fail("the root's finish callback was delivered a second time for one run");
     else if ((int)s != r.res) fail("the root's finish callback reports a result different from result()");
     pendingFinishCb = 0;
+    cnt[EC_ROOT_FIN_CB]++;
+    if (scriptActive) for (auto &e : S.ev) if (e.cls == EC_ROOT_FIN_CB && e.n == cnt[EC_ROOT_FIN_CB]) apply(e.what);
   }
   void rootBlockCb() {
     note(0, EV_CBB);
@@ -607,7 +610,15 @@ struct Run {
       }
     switch (what) {
       case W_START: inRootStart = true; root->start(); inRootStart = false; break;
-      case W_PAUSE: root->pause(); if (before == ST_RUN && r.st != ST_PAUSE) fail("pause() on the running root left it " + std::string(kStName[r.st])); break;
+      case W_PAUSE: {
+        // pause() reaches every node that is effectively running (pinned by SwitchAction.PauseResume: the running child's pause hook runs)
+        std::vector<char> live(rt.size(), 0);
+        for (size_t n = 0; n < rt.size(); ++n) live[n] = rt[n].st == ST_RUN && (T.n[n].parent < 0 || live[T.n[n].parent]);
+        root->pause();
+        if (before == ST_RUN && r.st != ST_PAUSE) fail("pause() on the running root left it " + std::string(kStName[r.st]));
+        for (size_t n = 0; n < rt.size() && err.empty(); ++n)
+          if (live[n] && rt[n].st != ST_PAUSE) fail("pause() of the root did not reach " + nn((int)n) + ": it was running (as were all its ancestors) and is " + kStName[rt[n].st] + " afterwards");
+        break; }
       case W_RESUME: root->resume(); if (before == ST_PAUSE && r.st != ST_RUN && r.st != ST_FIN) fail("resume() on the paused root left it " + std::string(kStName[r.st])); break;
       case W_STOP: root->stop(); if ((before == ST_RUN || before == ST_PAUSE) && r.st != ST_STOP) fail("stop() on the root that was under way left it " + std::string(kStName[r.st])); break;
       case W_RESET:
@@ -671,6 +682,10 @@ struct Run {
         idle[n] = rt[p].st == ST_IDLE ? p : idle[p];
         if (dead[n] >= 0 && (real == ST_RUN || real == ST_PAUSE)) { fail(nn(dead[n]) + " is " + kStName[rt[dead[n]].st] + " but its descendant " + nn((int)n) + " is still " + kStName[real]); return; }
         if (idle[n] >= 0 && real != ST_IDLE) { fail(nn(idle[n]) + " is idle (reset) but its descendant " + nn((int)n) + " is " + kStName[real]); return; }
+      }
+      if (d.kind == K_SEQ && (x.st == ST_IDLE || (x.st == ST_FIN && !x.byTimeout))) {
+        int want = x.st == ST_IDLE ? 0 : x.idx, got = static_cast<tbox::flow::SequenceAction *>(x.act)->index();
+        if (got != want) { fail("index() of " + nn((int)n) + " is " + std::to_string(got) + " while it is " + kStName[x.st] + ", documented (pinned by sequence_action_test.cpp): " + std::to_string(want)); return; }
       }
       if (!isLeaf(d.kind) && x.ended && x.finals == 0) { fail("final hook of " + nn((int)n) + " did not run although it is " + kStName[x.st]); return; }
     }
@@ -767,7 +782,16 @@ ExecInfo execute(Run &R, bool withPrefix) {
         // fall through
       case 3:
         R.step(1);
+        if (R.S.destroyAt && R.tick - R.progBase >= R.S.destroyAt && R.err.empty()) {
+          // destruction at any moment: queued notifications and replay tasks must be withdrawn (ASan decides)
+          delete R.root; R.root = nullptr; R.frozen = true; R.destroyed = true; ph = 8; cntInPhase = 0;
+          break;
+        }
         if (R.tick - R.progBase >= scriptLen) { ph = 4; lastSize = R.trace.size(); quietTicks = 0; }
+        break;
+      case 8:
+        R.now += 1;
+        if (++cntInPhase >= 4) return false;
         break;
       case 4:
         R.step(1); ++drainTicks;
@@ -786,10 +810,11 @@ ExecInfo execute(Run &R, bool withPrefix) {
         R.frozen = true;
         ph = 7; cntInPhase = 0;
         break;
-      default:
+      case 7:
         R.step(1);
         if (++cntInPhase >= 3) { R.checkAllDead(); return false; }
         break;
+      default: return false;
     }
     return R.err.empty();
   });
@@ -827,14 +852,14 @@ std::string runTree(const Scenario &s, CaseInfo &info) {
   info.cls_if(finished, "root_finished"); info.cls_if(stopped, "root_stopped_under_way");
   info.cls_if(R.nonquiescent, "endless_loop"); info.cls_if(R.refCompared, "reference_result_compared");
   info.cls_if(R.refOrderCompared, "reference_start_order_compared"); info.cls_if(R.refSkipped, "reference_skipped_for_a_run");
-  info.cls_if(R.nCtlApplied >= 4, "ctl_calls>=4"); info.cls_if(R.sleepAnomaly, "sleep_anomaly");
+  info.cls_if(R.nCtlApplied >= 4, "ctl_calls>=4"); info.cls_if(R.destroyed, "tree_destroyed_mid_run"); info.cls_if(R.sleepAnomaly, "sleep_anomaly");
   info.nontrivial = T.depth >= 3 && T.hasPar && T.hasSerial && (R.between || rerun);
   return R.err;
 }
 
 // ---------------------------------------------------------------------------------------------- sub `reset_meta`
 std::string runResetMeta(const Scenario &s, CaseInfo &info) {
-  Tree T = parseTree(s, true, false); Script S = parseScript(s); S.pp.clear();
+  Tree T = parseTree(s, true, false); Script S = parseScript(s); S.pp.clear(); S.destroyAt = 0;
   std::vector<Ent> ta, tb; std::string err; bool underway = false, prefixActivity = false;
   for (int pass = 0; pass < 2 && err.empty(); ++pass) {
     Env E; Run R(T, S, E.loop.get(), E.clk.now);
@@ -862,7 +887,7 @@ std::string runResetMeta(const Scenario &s, CaseInfo &info) {
 
 // ---------------------------------------------------------------------------------------------- sub `pause_meta`
 std::string runPauseMeta(const Scenario &s, CaseInfo &info) {
-  Tree T = parseTree(s, true, true); Script S = parseScript(s); S.pre.clear(); S.ev.clear(); S.cb.clear();
+  Tree T = parseTree(s, true, true); Script S = parseScript(s); S.pre.clear(); S.ev.clear(); S.cb.clear(); S.destroyAt = 0;
   { std::vector<Ctl> keep; for (auto &c : S.ctl) if (c.what == W_START) keep.push_back(c); if (keep.empty()) keep.push_back({0, W_START, 0}); S.ctl.swap(keep); }
   if (S.autores == 0) S.autores = 2;   // a leaf that blocks is always resumed: otherwise the resume() of an inserted pair would double as that resume
   Script SA = S; SA.pp.clear();
@@ -954,14 +979,14 @@ int64_t genWhat(Rng &g) { return g.pick({{2, W_START}, {30, W_PAUSE}, {26, W_RES
 
 Scenario expandTree(int64_t seed) {
   Rng g(seed); Scenario sc;
-  mk(sc, CFG, {g.pick({{18, 0}, {30, 1}, {30, 2}, {12, 3}, {10, 4}}), 0});
+  mk(sc, CFG, {g.pick({{18, 0}, {30, 1}, {30, 2}, {12, 3}, {10, 4}}), 0, g.chance(6) ? g.rng(1, 14) : 0});
   genTree(g, sc, true, true);
   mk(sc, CTL, {g.pick({{80, 0}, {15, 1}, {5, 3}}), W_START, 0});
   int style = (int)g.pick({{22, 0}, {78, 1}});
   if (style == 1) {
     int n = (int)g.pick({{35, 1}, {30, 2}, {20, 3}, {15, 5}});
     for (int i = 0; i < n; ++i) {
-      switch (g.pick({{20, 0}, {34, 1}, {8, 2}, {14, 3}, {14, 4}, {10, 5}})) {
+      switch (g.pick({{20, 0}, {34, 1}, {8, 2}, {14, 3}, {14, 4}, {8, 5}, {8, 6}})) {
         case 0: mk(sc, CTL, {g.rng(0, 14), genWhat(g), g.rng(0, 1)}); break;
         case 1: { int64_t cls = g.pick({{40, EC_LEAF_FIN}, {30, EC_NODE_FIN}, {12, EC_LEAF_START}, {10, EC_ROOT_BLOCK}, {8, EC_LEAF_BLOCK}});
           int64_t n1 = g.pick({{40, 1}, {25, 2}, {15, 3}, {20, -1}}); if (n1 < 0) n1 = g.rng(4, 9);
@@ -975,6 +1000,11 @@ Scenario expandTree(int64_t seed) {
           if (g.chance(75)) mk(sc, CTL, {t, W_STOP, g.rng(0, 1)});
           mk(sc, CTL, {t + g.rng(0, 2), W_RESET, g.rng(0, 1)});
           mk(sc, CTL, {t + g.rng(2, 4), W_START, g.rng(0, 1)}); break; }
+        case 6: { int64_t n1 = g.pick({{70, 1}, {30, 2}});   // restart (or stop / reset only) from inside the root's finish callback
+          int64_t k = g.pick({{50, 0}, {25, 1}, {25, 2}});
+          if (k == 1) mk(sc, CTLEV, {EC_ROOT_FIN_CB, n1, W_STOP, 0});
+          else { mk(sc, CTLEV, {EC_ROOT_FIN_CB, n1, W_RESET, 0}); if (k == 0) mk(sc, CTLEV, {EC_ROOT_FIN_CB, n1, W_START, 0}); }
+          break; }
         default: mk(sc, ADV, {g.rng(0, 14), g.pick({{50, 700}, {30, -1}, {20, 2000}}) < 0 ? g.rng(3, 60) : 700}); break;
       }
     }
@@ -1026,7 +1056,7 @@ rc::Gen<Scenario> genFrom(Scenario (*expand)(int64_t)) {
 #endif
 
 const std::vector<const char *> kOpNames = {"cfg", "node", "ctl", "ctlev", "ctlcb", "adv", "pre", "pp"};
-const std::vector<int> kOpArity = {2, 6, 3, 4, 2, 2, 3, 3};
+const std::vector<int> kOpArity = {3, 6, 3, 4, 2, 2, 3, 3};
 
 SubDef defTree = [] {
   SubDef d; d.name = "tree"; d.op_names = kOpNames; d.op_arity = kOpArity;
